@@ -96,6 +96,13 @@ def make_files():
     recipe['Hmid'] = [hl(0, 200), hl(1, HI[0]), hl(2, 202)]
     recipe['Hlast'] = [hl(0, 200), hl(1, 201), hl(2, HI[2])]
     recipe['Hall'] = [hl(0, HI[0]), hl(1, HI[1]), hl(2, HI[2])]
+    # streams with a huge comment header (embedded cover art): LC20 has a ~22 KB header page, LC70 a maximal 65307-byte page
+    # followed by a continued page; a page then needs tens of thousands of 1-byte answers of the read callback
+    alphabet = 'ABCDEFGHIJKLMNOPQRSTUVWXYZabcdefghijklmnopqrstuvwxyz0123456789+/'
+    def longtag(n):
+        return ''.join(alphabet[(i * 7 + i // 61 + (i * i) // 4099) % 64] for i in range(n))
+    recipe['LC20'] = [vlib.mkzoo('c10_LC20', rate=8000, ch=1, n=600, q=0.3, sig='mix', serial=81, pages='flush', tag=longtag(20000))]
+    recipe['LC70'] = [vlib.mkzoo('c10_LC70', rate=8000, ch=1, n=600, q=0.3, sig='mix', serial=82, pages='flush', tag=longtag(70000))]
     out = {}
     for name, links in recipe.items():
         data = b''.join(open(p, 'rb').read() for p, _ in links)
@@ -313,6 +320,26 @@ def run(tier):
                     ch += rows(R, f, p, 'f', 'c4096', 0, [], bnd - 40, bnd + 70)
     phase('hiserial', 'hiserial', ch, 'h', 400)
 
+    # ---- phase 0c: huge header pages under tiny read answers (a 22 KB / a maximal 65307-byte page one or two bytes at a time)
+    LCF = ['LC20', 'LC70']
+    cl = []
+    for f in LCF:
+        F = files[f]
+        bigp = max(F['pages'], key=lambda x: x.size())
+        ks = sorted({1, 58, 59, 4096, 8192, 8193, 20000, bigp.offset + 27, bigp.offset + bigp.size() - 1, bigp.offset + bigp.size(), bigp.offset + bigp.size() + 1, F['pages'][-2].offset, F['len']})
+        for p in PATHS:
+            cl += [R.case(f, p, 'f', 'c4096', c, []) for c in (1, 2, 3, 7, 255, 2047, 2048, 4096)]
+            cl += [R.case(f, f'{p}@{k}', 'f', 'c4096', c, []) for k in ks if k <= F['len'] for c in (0, 1, 2, 7)]
+            cl += [R.case(f, p, 'f', q, c, []) for q in ('c1', 'r70') for c in (1, 2)]
+        for p in ('s', 'n'):
+            cl += [R.case(f, p, a_, q, c, []) for (a_, q) in (('i', 'b4096'), ('i', 'F1'), ('g', 'b64'), ('k', 'a4,1000')) for c in (1, 2, 3)]
+        if thorough:
+            for p in PATHS:
+                cl += [R.case(f, p, 'f', 'c4096', c, []) for c in range(4, 2047)]
+                if f == 'LC20':
+                    cl += rows(R, f, p, 'f', 'c4096', 0, [], 1, F['len'])
+    phase('bigpage', 'bigpage', cl, 'b', 2000)
+
     # ---- phase 1: every uniform cap x path x file (default request length)
     big = ['F1', 'F2', 'S2']
     c1 = [R.case(f, p, 'f', 'c4096', c, []) for f in big for p in PATHS for c in CAPS_ALL]
@@ -477,6 +504,13 @@ def run(tier):
             for p in PATHS:
                 g = G.get(('initial', f, p), {})
                 chk.guard(g.get('ini', 0) >= 0.9 * g.get('n', 1) and g.get('n', 0) >= 20, f'opens with a non-empty initial buffer ran and passed on {f}/{p} ({g.get("ini")}/{g.get("n")})')
+    chk.guard(max(x.size() for x in files['LC70']['pages']) == 65307 and max(x.size() for x in files['LC20']['pages']) > 16384,
+              'LC70 contains a maximal 65307-byte page and LC20 a page larger than 16 KiB')
+    if complete.get('bigpage'):
+        for f in LCF:
+            for p in PATHS:
+                g = G.get(('bigpage', f, p), {})
+                chk.guard(g.get('maxR', 0) >= files[f]['len'] and g.get('n', 0) >= 50, f'{f} delivered one byte per read via path {p} (max reads {g.get("maxR")}, {g.get("n")} executions)')
     if complete.get('hiserial'):
         for f in HF:
             for p in PATHS:
@@ -489,7 +523,7 @@ def run(tier):
         'distinct_nontrivial': len(R.logs) + R.rowD,
         'rule': 'DEV enumeration of read-callback answers: default = full answer; deviations = uniform cap c (every c in 1..2048, 4096, 65536) or cuts (read stops at absolute offset b; every b in 1..len-1; '
                 '2-cut pairs: all pairs inside the listed windows' + (' and ALL pairs b1<b2 of file S' if thorough else '') + '; hand-over of the first k bytes through initial/ibytes with the source positioned after them: k over a boundary set on every file and every k on the small files, also x every 1-cut of S) x access path {seekable vorbisfile, streaming vorbisfile, packet API} x request-length schedules '
-                f'(ov_read_float {REQ_F}, ov_read {REQ_I}, ov_read_filter with a gain-0.5 / an identity filter {REQ_G} [bytes]); files F1 (1 link), F2 (3 links 1ch/2ch/1ch, 8k/11.025k/44.1k), S2 (2 links 1ch/2ch), S (1 link, smallest), Hfirst/Hmid/Hlast/Hall (3-link chains 1ch/2ch/1ch whose first / middle / last / every link has a serial number with bit 31 set: 0x80000000, 0x9abcdef1, 0xffffffff; caps subset, every request schedule, 1-cuts around the link boundaries), BIG (1 link > 64 KiB: caps, and 1-cuts only around the landing point of the open-time backward hop, seekable path). '
+                f'(ov_read_float {REQ_F}, ov_read {REQ_I}, ov_read_filter with a gain-0.5 / an identity filter {REQ_G} [bytes]); files F1 (1 link), F2 (3 links 1ch/2ch/1ch, 8k/11.025k/44.1k), S2 (2 links 1ch/2ch), S (1 link, smallest), Hfirst/Hmid/Hlast/Hall (3-link chains 1ch/2ch/1ch whose first / middle / last / every link has a serial number with bit 31 set: 0x80000000, 0x9abcdef1, 0xffffffff; caps subset, every request schedule, 1-cuts around the link boundaries), LC20/LC70 (comment header of 20 KB / 70 KB: a 22 KB header page / a maximal 65307-byte page plus a continued page; caps 1,2,3,7,.. and initial/ibytes subset), BIG (1 link > 64 KiB: caps, and 1-cuts only around the landing point of the open-time backward hop, seekable path). '
                 'distinct_nontrivial = number of distinct (file, path, api, request schedule, hash of the complete callback log) among single cases in which a deviation actually shortened a read, '
                 'plus, for row cases (one execution per value of the last cut), the number of distinct callback logs within each row among executions where every cut shortened a read (rows differ in file/path/schedule/first cut)',
         'samples': [{'case': s, 'format': '<file> <path s|n|p> <api f|i> <request schedule> <cap> <ncut> <cuts..>'} for s in R.samples[:12]],
